@@ -57,6 +57,8 @@ def tasks(tier, seed):
     cs = {c: w for c, w in cone_set("thorough", dims=(2, 3))}
     for cls, ct, cone, W in runs.cells(tier):
         N, steps = (1, 3) if cls == "VOGP_AD" else (2, 2 if tier == "quick" else 3)
+        if cls == "PaVeBaPartialGP":
+            steps = 2   # three steps with symbolic costs and budget: over 90 min per task (rectangles), inconclusive for ellipsoids
         ts.append({"id": f"run[{cls},{(ct or '')[5:9]},{cone},q=1]", "fn": "run_task",
                    "args": {"cls_name": cls, "ctype": ct, "cone": cone, "W": None if W is None else W.tolist(), "N": N,
                             "steps": steps, "batch": 1, "prop": "C06", "tier": tier,
@@ -90,7 +92,7 @@ def meta(tier):
     fs = [getattr(getattr(A.amod(c), c), "run_one_step") for c in ALL]
     import vopy.acquisition.acquisition as aq
     return {"level": "model_checking", "functions": src_info(*fs, aq.optimize_acqf_discrete, aq.optimize_decoupled_acqf_discrete),
-            "bounds": {"N": "2 designs (VOGP_AD: from the root, depth ≤ 3)", "steps": "2 (3 thorough) + 2 calls after completion",
+            "bounds": {"N": "2 designs (VOGP_AD: from the root, depth ≤ 3)", "steps": "2 (3 thorough; PaVeBaPartialGP with symbolic costs and budget: 2 in both tiers) + 2 calls after completion",
                        "batch": "1 and 3 (> active set)", "cones": "orthant2, theta120 (free-oracle runs); 7-10 cones incl. 3-D "
                        "and K > m in the real-predicate configuration sweep"},
             "stubs": ["free-oracle region predicates (a superset of all real behaviours: safety clauses proved here hold on "
